@@ -237,3 +237,20 @@ fn test_estimate_repeat_values() {
     }
     assert_eq!(tdigest.quantile(0.9), Some(1.0));
 }
+
+#[test]
+fn test_huge_finite_values_keep_queries_in_range() {
+    // products and differences of values near f64::MAX must not overflow inside the queries
+    let mut td = TDigestMut::new(10);
+    for i in 0..2000 {
+        td.update(if i % 2 == 0 { -1e308 } else { 1e308 });
+    }
+    for i in 0..=20 {
+        let q = td.quantile(i as f64 / 20.0).unwrap();
+        assert!((-1e308..=1e308).contains(&q), "quantile {q}");
+    }
+    for v in [-1e308, -1.0, 0.0, 1.0, 1e308] {
+        let r = td.rank(v).unwrap();
+        assert!((0.0..=1.0).contains(&r), "rank {r}");
+    }
+}
